@@ -79,6 +79,11 @@ pub trait Property: Sync {
     type Case: Serialize + DeserializeOwned + std::fmt::Debug + Clone + Send + Sync + 'static;
 
     fn id(&self) -> &'static str;
+    /// Name of this binary's own replay-file family (directory under replays/regress, prefix of
+    /// found replays). Differs from `id` only when one property is decided by several binaries.
+    fn stage(&self) -> &'static str {
+        self.id()
+    }
     fn isolation(&self) -> Isolation;
     /// number of generated cases for the whole run (all shards together)
     fn cases(&self, tier: Tier) -> u32;
@@ -417,8 +422,12 @@ fn report_violation<P: Property>(
             let dir = kf::verif_dir().join("replays/found");
             let _ = std::fs::create_dir_all(&dir);
             let enc = serde_json::to_string(case).unwrap_or_default();
-            let p = dir.join(format!("{}-{:016x}.case", prop.id(), hash64(&(enc, sig))));
-            let _ = std::fs::write(&p, render_case_file(prop.id(), ctx, sig, detail, case));
+            let p = dir.join(format!("{}-{:016x}.case", prop.stage(), hash64(&(enc, sig))));
+            let mut text = render_case_file(prop.id(), ctx, sig, detail, case);
+            if prop.stage() != prop.id() {
+                text = text.replacen('\n', &format!(" stage={}\n", prop.stage()), 1);
+            }
+            let _ = std::fs::write(&p, text);
             p
         }
     };
@@ -555,7 +564,7 @@ fn search_main<P: Property>(
 
     // 1. committed regression / known-finding replays (shard 0 only)
     if shard == 0 {
-        let dir = kf::verif_dir().join("replays/regress").join(prop.id());
+        let dir = kf::verif_dir().join("replays/regress").join(prop.stage());
         let mut files: Vec<PathBuf> = std::fs::read_dir(&dir)
             .map(|rd| rd.filter_map(|e| e.ok().map(|e| e.path())).filter(|p| p.extension().map(|x| x == "case").unwrap_or(false)).collect())
             .unwrap_or_default();
